@@ -10,6 +10,11 @@
   (known finding F20); the model answers `ub` there and the full statement "no `ub` for any input" is FALSE:
   `full_statement_fails` exhibits the witness.
 -/
+import Mb2.Props.FnsTagHdr
+import Mb2.Props.FnsHtHdr
+import Mb2.Props.FnsBiHdr
+import Mb2.Props.FnsHbHdr
+import Mb2.Props.FnsIter
 import Mb2.HTags
 import Mb2.Props.C02
 import Mb2.Props.C03
